@@ -11,6 +11,9 @@ def plans(tier):
         {"name": "kill-2pk-nosurvivor", "msgs": [[], [1, 2]], "plan": [R] * 3, "crashers": [2], "simulate": 30},
         {"name": "kill-try-observer", "msgs": [[2], [2, 1]], "plan": [T, R, T, R, R], "crashers": [2], "simulate": 40,
          "liveness": False},
+        # every multi-packet message carries a clone of its sending handle in its first packet: after the crash the
+        # attachment of the torn message must be let go, or the channel never reports the disconnection
+        {"name": "kill-with-attachment", "msgs": [[], [1, 3]], "plan": [R] * 3, "crashers": [2], "simulate": 30, "attach": True},
     ]
     if tier == "quick":
         return base
@@ -31,6 +34,8 @@ def set_plans(tier):
          "crashers": [2], "liveness": False},
         {"name": "set-kill-then-look", "msgs": [[2], [1]], "prog": [A(1), A(2)], "simulate": 6 if tier == "quick" else 60,
          "caps": (2,), "crashers": [1], "senders_first": True, "liveness": False},
+        {"name": "set-kill-with-attachment", "msgs": [[2, 1], [1]], "prog": [A(1), A(2)], "simulate": 20 if tier == "quick" else 300,
+         "caps": (2,), "crashers": [1], "attach": True, "liveness": False},
     ]
 
 
